@@ -1,10 +1,10 @@
 """C03 -- the frequency grid obeys the DFT and stepping constraints."""
 from . import sched as SC
-from .C02 import split, ob_ltf, ob_vec, ob_new, encoded_functions
+from .C02 import split, ob_ltf, ob_vec, ob_new, encoded_functions, ob_whole_plan, whole_plan_obligations
 
 PROPERTY = "C03"
 META = {
-    "bounds": "one loop iteration of each scheduler from an ARBITRARY state fi in [fmin,fmax); N>=8 symbolic and unbounded; all configuration parameters symbolic; vectorised scheduler on a generic adjacent pair of its lookup grid with symbolic ratio rho>1",
+    "bounds": "(thorough tier additionally: whole plans of ltf/lpsd at N=8, Jdes=1, fs=1 executed path by path, see C02) one loop iteration of each scheduler from an ARBITRARY state fi in [fmin,fmax); N>=8 symbolic and unbounded; all configuration parameters symbolic; vectorised scheduler on a generic adjacent pair of its lookup grid with symbolic ratio rho>1",
     "outside": ["IEEE rounding of f+r accumulation", SC.POW_FACTS],
     "stubs": ["(N/2)**(1/Jdes) -> uninterpreted application with facts", "np.logspace/np.searchsorted -> generic adjacent grid pair", "round_half_up -> proved summary"],
     "assumptions": ["admissible configuration", "allowance for b>=bmin: rounding of L to an integer moves fs/r by at most 1/2, i.e. b >= bmin - f/(2 fs); for the vectorised scheduler additionally the factor 1/rho of its lookup grid"],
@@ -22,4 +22,5 @@ def obligations(tier):
     split(obs, "vec/step", "ob_vec", {"part": "step"}, G, timeout=to, weight=3)
     split(obs, "vec/step-after-prior-plan", "ob_vec", {"part": "step", "fork_ifs": True, "prior": True}, [G[0] + G[1]], timeout=min(to, 20), weight=4, fork=True, max_paths=48, limit=(300 if tier == "quick" else 1200))
     split(obs, "new/step", "ob_new", {"part": "step"}, G, timeout=to if tier == "thorough" else 20, weight=3)
+    whole_plan_obligations(obs, tier, "C03")
     return obs
